@@ -73,14 +73,35 @@ def table_lock_ownership():
     def is_the_lock(expr):
         return len(lock_attrs) == 1 and isinstance(expr, ast.Attribute) and expr.attr == lock_attrs[0] and \
             isinstance(expr.value, ast.Name) and expr.value.id in ("self", "_wn")
+
+    def holds_lock(body):
+        """the whole body runs under THE lock: `with <lock>: ...`, or `[alias = <lock>;] X.acquire(); try: ... finally:
+        X.release()` with X the lock or that alias"""
+        body = [s_ for s_ in body if not (isinstance(s_, ast.Expr) and isinstance(s_.value, ast.Constant))]
+        if len(body) == 1 and isinstance(body[0], ast.With) and len(body[0].items) == 1:
+            return is_the_lock(body[0].items[0].context_expr)
+        alias = None
+        if body and isinstance(body[0], ast.Assign) and len(body[0].targets) == 1 and isinstance(body[0].targets[0], ast.Name) \
+                and is_the_lock(body[0].value):
+            alias, body = body[0].targets[0].id, body[1:]
+
+        def same(e):
+            return is_the_lock(e) or (alias is not None and isinstance(e, ast.Name) and e.id == alias)
+
+        def call_on_lock(st, meth):
+            return isinstance(st, ast.Expr) and isinstance(st.value, ast.Call) and isinstance(st.value.func, ast.Attribute) \
+                and st.value.func.attr == meth and same(st.value.func.value) and not st.value.args and not st.value.keywords
+        return len(body) == 2 and call_on_lock(body[0], "acquire") and isinstance(body[1], ast.Try) and \
+            len(body[1].finalbody) == 1 and call_on_lock(body[1].finalbody[0], "release") and \
+            not any(isinstance(n, ast.Name) and n.id == alias and isinstance(n.ctx, ast.Store)
+                    for n in ast.walk(body[1])) if body else False
     for m in cls.body:
         if not isinstance(m, ast.FunctionDef):
             continue
         touches = any(isinstance(n, ast.Attribute) and n.attr in ("cache", "reminders", "reminder_keys") for n in ast.walk(m))
         if touches and m.name != "__init__":
             touching.add(m.name)
-        body = [s for s in m.body if not (isinstance(s, ast.Expr) and isinstance(s.value, ast.Constant))]
-        if len(body) == 1 and isinstance(body[0], ast.With) and is_the_lock(body[0].items[0].context_expr):
+        if holds_lock(m.body):
             locked_methods.add(m.name)
     # unlocked methods must only be reachable through locked code
     callers = {}
@@ -90,8 +111,7 @@ def table_lock_ownership():
                 if isinstance(c, ast.Call) and isinstance(c.func, ast.Attribute) and c.func.attr in touching:
                     callers.setdefault(c.func.attr, set()).add(n.name)
     wn = [n for n in tree.body if isinstance(n, ast.FunctionDef) and n.name == "wrap_numbers"][0]
-    wn_body = [s for s in wn.body if not (isinstance(s, ast.Expr) and isinstance(s.value, ast.Constant))]
-    wn_locked = len(wn_body) == 1 and isinstance(wn_body[0], ast.With) and is_the_lock(wn_body[0].items[0].context_expr)
+    wn_locked = holds_lock(wn.body)
     out = [("_WrapNumbers.__init__ creates exactly one lock object", len(lock_attrs) == 1, str(lock_attrs))]
     for m in sorted(touching):
         if m in locked_methods:
